@@ -188,6 +188,16 @@ fn with_b(v: Value, broken: bool) -> Value {
     json!(format!("{},b{}", v.as_str().unwrap(), if broken { 1 } else { 0 }))
 }
 
+/// custom ESMTP parameters of the low-level API: [[keyword_hex, value_hex | null], ...]
+fn mail_params(v: &Value) -> Vec<lettre::transport::smtp::extension::MailParameter> {
+    use lettre::transport::smtp::extension::MailParameter;
+    v.as_array().map(|a| a.iter().map(|p| MailParameter::Other { keyword: s_of(&p[0]), value: if p[1].is_null() { None } else { Some(s_of(&p[1])) } }).collect()).unwrap_or_default()
+}
+fn rcpt_params(v: &Value) -> Vec<lettre::transport::smtp::extension::RcptParameter> {
+    use lettre::transport::smtp::extension::RcptParameter;
+    v.as_array().map(|a| a.iter().map(|p| RcptParameter::Other { keyword: s_of(&p[0]), value: if p[1].is_null() { None } else { Some(s_of(&p[1])) } }).collect()).unwrap_or_default()
+}
+
 fn s_of(v: &Value) -> String {
     String::from_utf8(unhex(v.as_str().unwrap_or("-"))).unwrap()
 }
@@ -293,7 +303,8 @@ fn run_sync(ops: &[Value], port: u16, timeout: Duration) -> (Vec<Value>, Vec<u64
                 (Some(c), Ok(env)) => {
                     use lettre::transport::smtp::commands::{Data, Mail, Rcpt};
                     let msg = msg_of(op);
-                    let r = (|| { c.command(Mail::new(env.from().cloned(), vec![]))?; for t in env.to() { c.command(Rcpt::new(t.clone(), vec![]))?; } c.command(Data)?; c.message(&msg) })();
+                    let (mp, rp) = (mail_params(&op["mparams"]), rcpt_params(&op["rparams"]));
+                    let r = (|| { c.command(Mail::new(env.from().cloned(), mp))?; for t in env.to() { c.command(Rcpt::new(t.clone(), rp.clone()))?; } c.command(Data)?; c.message(&msg) })();
                     with_b(render(&r), c.has_broken())
                 }
                 (None, _) => json!("skip"),
@@ -413,7 +424,8 @@ async fn run_tokio(ops: &[Value], port: u16, timeout: Duration) -> (Vec<Value>, 
                 (Some(c), Ok(env)) => {
                     use lettre::transport::smtp::commands::{Data, Mail, Rcpt};
                     let msg = msg_of(op);
-                    let r = async { c.command(Mail::new(env.from().cloned(), vec![])).await?; for t in env.to() { c.command(Rcpt::new(t.clone(), vec![])).await?; } c.command(Data).await?; c.message(&msg).await }.await;
+                    let (mp, rp) = (mail_params(&op["mparams"]), rcpt_params(&op["rparams"]));
+                    let r = async { c.command(Mail::new(env.from().cloned(), mp)).await?; for t in env.to() { c.command(Rcpt::new(t.clone(), rp.clone())).await?; } c.command(Data).await?; c.message(&msg).await }.await;
                     with_b(render(&r), c.has_broken())
                 }
                 (None, _) => json!("skip"),
